@@ -12,7 +12,7 @@ HOLDERS = [a for a in ACTORS if a not in BYSTANDERS]   # bystanders hold balance
 DEFAULT_W = {
     "swap": 30, "swap_window": 4, "swap_malformed": 5, "provide": 12, "provide_first": 4, "withdraw": 10,
     "route": 12, "donate": 5, "lp_burn": 2, "lp_transfer": 2, "unauth": 3, "transfer": 1,
-    "provide_malformed": 3, "add_decimals": 1, "route_bad": 2, "intent": 8, "owner_admin": 1,
+    "provide_malformed": 3, "add_decimals": 1, "route_bad": 2, "intent": 8, "owner_admin": 1, "withdraw_via_token": 1,
 }
 
 
@@ -166,7 +166,13 @@ class HistGen:
                 if nat_named:
                     funds = [[nat_named[1], str(delivered_amt)]]
                 others = [a for a in w.natives if a != nat_named]
-                if others:
+                mine = [a for a in p.assets if a[0] == "n" and a != nat_named]
+                if mine and rng.random() < 0.6:
+                    # the pair's OTHER coin attached as well (as for a provision), in amounts comparable to its reserve
+                    o = mine[0]
+                    ro = p.reserves(led)[p.idx(o)]
+                    funds.append([o[1], str(max(1, min(led.get(actor, o[1]), rng.choice([ro, 2 * ro, ro // 3 + 1, rel_amount(rng, ro, w.scale_bits, cap=1 << 100)]))))])
+                elif others:
                     o = rng.choice(others)
                     funds.append([o[1], str(rng.choice([1, base]))])
             elif fmode == "other_only":
@@ -589,8 +595,19 @@ class HistGen:
         w, rng = self.w, self.rng
         actor = self.actor()
         A = w.all_assets()
-        mode = rng.choice(["empty", "dangling", "merge", "unknown_pair", "wrong_entry", "repeat_pair", "identity_hop"])
+        mode = rng.choice(["empty", "dangling", "merge", "unknown_pair", "wrong_entry", "repeat_pair", "identity_hop",
+                           "repeat_hop", "side_branch"])
         ps = self.paths()
+        if mode == "repeat_hop":
+            op = self.repeat_hop_route(actor)
+            if op is not None:
+                return op
+            mode = "repeat_pair"
+        if mode == "side_branch":
+            op = self.side_branch_route(actor)
+            if op is not None:
+                return op
+            mode = "dangling"
         if mode == "empty":
             hops = []
         elif mode == "dangling":
@@ -660,6 +677,82 @@ class HistGen:
         q = [w.q_route_sim(hops, amount)] if hops else []
         return op, q
 
+    def repeat_hop_route(self, actor):
+        """a chain that takes the SAME hop twice (X->Y->Z->X->Y around a triangle, or X->Y->X->Y): the router's own quote prices
+        the repeated hop on the pre-route reserves, so quote != delivery; minimum_receive is placed between the two"""
+        w, rng = self.w, self.rng
+        led = w.ledger
+        live = [p for p in w.pairs if min(p.reserves(led)) > 0]
+        routes = []
+        for p1 in live:
+            for X in p1.assets:
+                Y = p1.other(X)
+                routes.append([(X, Y), (Y, X), (X, Y)])
+                for p2 in live:
+                    if p2 is p1 or Y not in p2.assets:
+                        continue
+                    Z = p2.other(Y)
+                    p3 = w.pair_for(Z, X)
+                    if Z != X and p3 in live and p3 is not p1 and p3 is not p2:
+                        routes.append([(X, Y), (Y, Z), (Z, X), (X, Y)])
+        if not routes:
+            return None
+        tri = [r for r in routes if len(r) == 4]
+        hops = rng.choice(tri if (tri and rng.random() < 0.7) else routes)
+        first = w.pair_for(*hops[0])
+        x = first.reserves(led)[first.idx(hops[0][0])]
+        cap = max(1, led.get(actor, hops[0][0][1]))
+        amount = max(1, min(cap, int(x * 2 ** rng.uniform(-7, 0.5))))
+        qd = w.q_route_sim(hops, amount)
+        qr = w.q(*qd)
+        q = int(qr["v"]["amount"]) if qr["r"] == "ok" else None
+        m = None
+        if q is not None:
+            m = rng.choice([q, q, max(0, q - 1), max(0, q - q // rng.choice([10, 100, 1000, 10 ** 6]) - 1), q + 1, None])
+        op = w.op_route(actor, hops, amount, minimum_receive=m, to=rng.choice([None, None, "recv", actor]))
+        op["sem"]["bad_mode"] = "repeat_hop"
+        op["sem"]["quote"] = q
+        op["kind"] = "route_bad"
+        return op, [qd]
+
+    def side_branch_route(self, actor):
+        """[A->X, B->A, X->C] with coins A and B attached: the side branch re-produces an asset the chain has already spent
+        (two outputs are left over: A and C)"""
+        w, rng = self.w, self.rng
+        led = w.ledger
+        live = [p for p in w.pairs if min(p.reserves(led)) > 0]
+        cands = []
+        for p1 in live:
+            for A in p1.assets:
+                if A[0] != "n":
+                    continue
+                X = p1.other(A)
+                for p2 in live:
+                    if p2 is p1 or A not in p2.assets:
+                        continue
+                    B = p2.other(A)
+                    if B[0] != "n" or B == X:
+                        continue
+                    for p3 in live:
+                        if p3 in (p1, p2) or X not in p3.assets:
+                            continue
+                        C = p3.other(X)
+                        if C not in (A, B):
+                            cands.append([(A, X), (B, A), (X, C)])
+        if not cands:
+            return None
+        hops = rng.choice(cands)
+        other = hops[1][0]
+        if rng.random() < 0.3:
+            hops = [hops[0], hops[2], hops[1]]
+        a0 = rel_amount(rng, w.pair_for(*hops[0]).reserves(led)[w.pair_for(*hops[0]).idx(hops[0][0])], w.scale_bits, 1 << 100)
+        a1 = rel_amount(rng, 1 << w.scale_bits, w.scale_bits, 1 << 100)
+        op = w.op_route(actor, hops, a0, minimum_receive=rng.choice([None, None, 0, 1]), to=rng.choice([None, "recv"]),
+                        extra_funds=[(other[1], a1)])
+        op["sem"]["bad_mode"] = "side_branch"
+        op["kind"] = "route_bad"
+        return op, [w.q_route_sim(hops, a0)]
+
     def g_donate(self):
         w, rng = self.w, self.rng
         actor = self.actor()
@@ -699,6 +792,32 @@ class HistGen:
         to = rng.choice([a for a in ACTORS if a != actor] + [p.addr, p.addr, w.router, p.lp])
         return w.op_lp_transfer(actor, p, to, amt), []
 
+    def g_withdraw_via_token(self):
+        """withdraw_liquidity arriving through one of the pair's asset tokens / a foreign token; half of the time the pair
+        first gets some LP parked on it (plain transfer), so that a burn of the amount would be possible"""
+        w, rng = self.w, self.rng
+        led = w.ledger
+        ps = [p for p in w.pairs if p.supply(led) > 0]
+        if not ps:
+            return self.g_provide(first=True)
+        withtok = [p for p in ps if any(a[0] == "t" for a in p.assets)]
+        p = rng.choice(withtok if (withtok and rng.random() < 0.8) else ps)
+        parked = led.get(p.addr, p.lp)
+        if parked == 0 and rng.random() < 0.5:
+            hs = [(a, led.get(a, p.lp)) for a in HOLDERS if led.get(a, p.lp) > 1]
+            if hs:
+                a, b = rng.choice(hs)
+                return w.op_lp_transfer(a, p, p.addr, max(1, b // rng.choice([2, 3, 10, 1000]))), []
+        toks = [a for a in p.assets if a[0] == "t"] * 3 + [t for t in w.tokens if t not in p.assets][:1]
+        if not toks:
+            return self.g_withdraw()
+        tok = rng.choice(toks)
+        actor = rng.choice(["attacker", "trader1", "lp1", "trader2"])
+        bal = led.get(actor, tok[1])
+        amt = rng.choice([parked, max(1, parked // 2), parked + 1, 1, rng.getrandbits(30) + 1]) if parked else rng.getrandbits(30) + 1
+        amt = max(1, min(amt, bal)) if bal else amt
+        return w.op_withdraw_via(actor, p, tok, amt), []
+
     def g_unauth(self):
         """Privileged / internal messages from non-authorised callers inside ordinary histories."""
         w, rng = self.w, self.rng
@@ -731,6 +850,10 @@ class HistGen:
         w, rng = self.w, self.rng
         nat = rng.choice(w.natives)
         dec = rng.choice([0, 6, 8, 18, w.decimals[nat[1]]])
+        if nat[1] in w.lookalikes and rng.random() < 0.2:
+            # the look-alike coin (another coin altogether) gets (re-)registered: no pair trades it, nothing may change
+            nat = ("n", w.lookalikes[nat[1]])
+            dec = rng.choice([0, 6, 9, 18])
         funds = []
         if rng.random() < 0.4:
             # coins attached to the admin call itself (they belong to the factory afterwards, never to the pairs)
@@ -895,6 +1018,8 @@ class HistGen:
             return self.g_lp(True)
         if k == "lp_transfer":
             return self.g_lp(False)
+        if k == "withdraw_via_token":
+            return self.g_withdraw_via_token()
         if k == "unauth":
             return self.g_unauth()
         if k == "transfer":
